@@ -26,8 +26,8 @@ RULE = ("EXHAUSTIVE (parent node type, child position, child node type) over the
         "str(parse(str(e))) == str(e).  distinct = typed key of the tree; non-trivial = >=2 operator "
         "nodes.")
 ASSUMPTIONS = [
-    "non-finite floats, complex numbers, numpy scalars and one-part slices are outside the text "
-    "syntax and are not generated",
+    "non-finite floats, complex numbers and one-part slices are outside the text syntax and are "
+    "not generated; numpy scalar constants are judged up to their Python value (C06.numpy)",
     "typed equality modulo sum/product flattening implies equal values in every environment, so "
     "values are only evaluated to classify a failure",
 ]
@@ -62,6 +62,9 @@ NODES = {
     "callkw": (2, lambda c: p.CallWithKwargs(F_, (c[0],), immutabledict({"k": c[1]}))),
     "sub": (1, lambda c: p.Subscript(A, c[0])), "subagg": (1, lambda c: p.Subscript(c[0], B)),
     "subt": (2, lambda c: p.Subscript(A, tuple(c))),
+    "tup0first": (1, lambda c: p.Call(F_, (((), c[0]),))),
+    "tup0only": (1, lambda c: p.Call(F_, (((),), c[0]))),
+    "subt0first": (1, lambda c: p.Subscript(A, ((), c[0]))),
     "subt1": (1, lambda c: p.Subscript(A, (c[0],))),
     "subt0": (1, lambda c: p.Sum((p.Subscript(A, ()), c[0]))),
     "subtnest": (1, lambda c: p.Subscript(A, ((c[0],),))),
@@ -189,6 +192,42 @@ def c_roundtrip(ctx, case):
             f2 = KF_SUBTUPLE    # a[((k,),)] -> 'a[(k,)]' -> a[(k,)] -> 'a[k]'
         ctx.fail("C06.roundtrip", case, f"reprint:{type(e).__name__}",
                  f"{G.src(e)} prints as {s!r}; the reparsed expression prints as {s2!r}", finding=f2)
+
+
+def _plainnum(x):
+    import numpy as np
+    if isinstance(x, np.bool_):
+        return bool(x)
+    if isinstance(x, np.integer):
+        return int(x)
+    if isinstance(x, np.floating):
+        return float(x)
+    return x
+
+
+@check("C06.numpy")
+def c_numpy(ctx, case):
+    """numpy scalar constants print like the numbers they are: the text parses back to the
+    same tree with the equal Python numbers in their place, and reprints identically"""
+    (e,) = case
+    ctx.case(None)
+    ctx.count("numpy_constant_roundtrips")
+    want = G.deep_rebuild(e, _plainnum)
+    try:
+        s = str(e)
+        e2 = parse(s)
+    except RecursionError:
+        raise
+    except Exception as ex:  # noqa: BLE001
+        ctx.fail("C06.numpy", case, f"numpy:raised:{type(ex).__name__}",
+                 f"{G.src(e)}: print/parse raised {type(ex).__name__}: {ex}")
+        return
+    if normal.flat_key(e2) != normal.flat_key(want):
+        ctx.fail("C06.numpy", case, f"numpy:tree:{_edge(want, e2)}",
+                 f"{G.src(e)} prints as {s!r}, which parses to {G.src(e2)}")
+        return
+    if str(e2) != s:
+        ctx.fail("C06.numpy", case, "numpy:reprint", f"{G.src(e)} prints as {s!r}, reparsed prints {str(e2)!r}")
 
 
 @check("C06.reuse")
@@ -323,12 +362,29 @@ def workload(ctx):
             if i < 3:
                 ctx.sample("random-deep", str(e))
             ctx.run("C06.roundtrip", (e,))
+        import numpy as np
+        npc = [np.int64(7), np.int32(-3), np.float64(1.5), np.float64(-2.5), np.float32(0.5),
+               np.bool_(True), np.int64(2 ** 40), np.float64(1e+20)]
+        for kind in REDUCED + ["sum3", "callkw", "subt", "slice2"]:
+            arity = NODES[kind][0]
+            for pos in range(arity):
+                for c in npc:
+                    if not ctx.mine("numpy"):
+                        continue
+                    if kind in ("callfn", "subagg", "look"):
+                        continue
+                    kids = [FILL[i] for i in range(arity)]
+                    kids[pos] = c
+                    e = build(kind, kids)
+                    ctx.case(("np", normal.typed_key(e)), True, n=0)
+                    ctx.run("C06.numpy", (e,))
         for i in range(ctx.per_shard(ctx.pick(16, 160))):
             ctx.case(("reuse", ctx.seed, ctx.shard, i), True, n=0)
             ctx.run("C06.reuse", ((ctx.seed, ctx.shard, i), 60))
         for k, v in tr.handlers().items():
             ctx.count("handler:" + k, v)
     ctx.floor("reused_printer_calls", 500)
+    ctx.floor("numpy_constant_roundtrips", 200)
     ctx.floor("slice_patterns", 60)
     ctx.floor("exhaustive_edges", 1500)
     ctx.floor("three_level", 2000)
